@@ -149,8 +149,32 @@ func TestVfC07CacheKey(t *testing.T) {
 		class := vfkit.GenClass(t)
 		mark := rapid.SampledFrom([]string{"", "cn", "us", "office"}).Draw(t, "mark")
 		n2, typ2, class2, mark2 := n1, typ, class, mark
-		diff := rapid.SampledFrom([]string{"none", "name", "name-bit5", "type", "class", "mark", "re-split"}).Draw(t, "differIn")
+		diff := rapid.SampledFrom([]string{"none", "name", "name-bit5", "type", "class", "mark", "re-split", "re-split-front"}).Draw(t, "differIn")
 		switch diff {
+		case "re-split-front":
+			// The same idea at the other end, for keys that put the mark in front of the name: two marks of which one
+			// continues the other by one printable character, and that character's value is a length - of the whole name
+			// (keys that write the name's length behind the mark) or of a first label (keys that do not).
+			base := rapid.SampledFrom([]string{"", "g", "lan", "office"}).Draw(t, "markBase")
+			tail := vfkit.Name{[]byte("example")}
+			if rapid.Bool().Draw(t, "withNameLength") {
+				l := rapid.IntRange(32, 62).Draw(t, "nameOctets") // wire length of the shorter name; l+1 is a printable octet
+				n2 = vfkit.Name{bytes.Repeat([]byte{'b'}, l-1)}
+				if l > 12 && rapid.Bool().Draw(t, "twoLabels") {
+					n2 = append(vfkit.Name{bytes.Repeat([]byte{'b'}, l-1-8)}, tail...)
+				}
+				n1 = vfkit.Name{n2.WireNoRoot()}
+				mark, mark2 = base, base+string(rune(l+1))
+			} else {
+				x := rapid.IntRange(33, 63).Draw(t, "firstLabelOctets") // a printable octet that is also a label length
+				first := bytes.Repeat([]byte{'b'}, x-1)
+				n2 = append(vfkit.Name{first}, tail...)
+				n1 = append(vfkit.Name{append([]byte{byte(x - 1)}, first...)}, tail...)
+				mark, mark2 = base, base+string(rune(x))
+			}
+			if mark2[len(mark2)-1] == '#' || mark2[len(mark2)-1] == ',' {
+				n2, mark2, diff = n1, mark+"x", "mark"
+			}
 		case "re-split":
 			// The same octets cut differently: the last label of the name, the class, the type and the mark of the first
 			// query, read as class + type + (longer) mark of a second query for the shorter name. The four components are
